@@ -79,6 +79,32 @@ def rule_guard(ctx):
     ctx.floor("write-after-search-call pairs", n_pairs, 2 * (2 + 2 + 2))  # three writes, each after at least two search calls, two guards
 
 
+def rule_final(ctx):
+    """What an interrupted search leaves behind must be what an uninterrupted one would also have left: a node's entry is
+    written when the node's value is final - no further child is searched in the same node after the write (the cut-off store
+    returns, the other store follows the move loop).  An entry written in the middle of the move loop holds a partial
+    maximum; if the search is cut before the loop ends it stays."""
+    ix = ctx.ix
+    abortable = C.abortable_functions(ix)
+    n = 0
+    for b in ix.fn_bodies():
+        stores = C.tt_stores(ix, b)
+        if not stores:
+            continue
+        rcalls = C.calls_to(ix, b, abortable)
+        for w in stores:
+            n += 1
+            wb = w["block"]
+            label = store_label(ix, b, w)
+            tgt = b.blocks[wb].term.get("target")
+            reach = b.reachable_from(tgt, include_start=True) if tgt is not None else set()
+            later = sorted(rb for (rb, rt, rk) in rcalls if rb in reach)
+            ctx.check(not later, "%s:write=%s:node-is-finished" % (b.key, label), "after the cache write %s no further child of the node is searched" % label, b.where(wb),
+                      bad_what="after the cache write %s in %s the node goes on to search further children (%s): the entry holds a provisional value, and an interruption before the node finishes leaves it in the table"
+                      % (label, C.short(b.key), ", ".join(b.where(x) for x in later[:3])))
+    ctx.floor("cache-writes", n, 3)
+
+
 def rule_dummy(ctx):
     """Aborted nodes return before doing anything: in every abortable recursive search function the
     abort guard dominates every other effect (recursive calls, make_move, cache writes)."""
@@ -394,7 +420,7 @@ def rule_writers(ctx):
     ctx.floor("cache writers", len(writers), 3)
 
 
-RULES = [("guard", rule_guard), ("dummy", rule_dummy), ("sticky", rule_sticky), ("writers", rule_writers)]
+RULES = [("guard", rule_guard), ("final", rule_final), ("dummy", rule_dummy), ("sticky", rule_sticky), ("writers", rule_writers)]
 
 
 def run(tier):
